@@ -460,7 +460,10 @@ func (env *c14Env) regionsOf(sp *c14Spec, cfg c14Cfg, ref []byte) ([]c14Region, 
 			rs = append(rs, c14Region{int(md.DataPageOffset), start + int(md.TotalCompressedSize), kDataPages})
 			if md.BloomFilterOffset > 0 {
 				k := pick(kBloomInline, kBloomInlineEnc)
-				if cfg.Deferred != "" {
+				// plaintext-footer encryption seals the column metadata with the
+				// row group: the writer does not defer the filters in that mode
+				// (repair 12e2695), they are written inline
+				if cfg.Deferred != "" && sp.Enc != 1 {
 					k = kBloomDeferred
 				}
 				rs = append(rs, c14Region{int(md.BloomFilterOffset), int(md.BloomFilterOffset) + int(md.BloomFilterLength), k})
